@@ -1,2 +1,57 @@
-(* C01 placeholder *)
-From LV Require Import Base Peg Grammar.
+(* C01 — Parsing is total: any text yields a template or an error, never a crash.
+   Statements only; proofs in proofs/PegProofs.v, about coq/gen/Grammar.v (regenerated from
+   crates/core/src/parser/grammar.pest on every run) under the pest semantics of model/Peg.v.
+
+   PARTIAL.  Proved, for every text:
+     - the lax top-level grammar never rejects: whenever its evaluation finishes it has matched, and
+       it has matched the whole text — so `LiquidParser::parse(Rule::LaxLiquidFile, ..).expect(..)`
+       in parser.rs cannot meet a grammar failure, and every element the block parsers see is one of
+       Expression / Tag / Raw / InvalidLiquid followed by exactly one EOI;
+     - the semantics is a function of the text alone: more fuel never changes an answer, and
+       lookahead mode changes the pair stream only, never what is matched;
+     - integer literals: only numerals of the signed 64-bit range are converted (C07
+       integer_conversion_in_range), the others are rejected by the guard added in the repair.
+   Not proved: that pest's evaluation of this grammar always finishes (no rule is left-recursive
+   and every repetition consumes; the correspondence runs evaluate ~10^5 texts with a fuel linear
+   in the length and never ran out), and the panic freedom of the recursive-descent code in
+   parser.rs and the tag/block `parse` methods above the pair stream, which is explored by the
+   enumeration of tools/props/c01.py (catch_unwind, exit status, time limit), not modelled. *)
+From LV Require Import Base Peg Grammar PegProofs.
+
+Theorem lax_grammar_never_rejects : forall fuel s,
+  parse liquid_grammar liquid_ws fuel r_LaxLiquidFile s <> Some None.
+Proof. exact PegProofs.lax_never_rejects. Qed.
+Theorem lax_grammar_consumes_everything : forall fuel s rest pos ts,
+  parse liquid_grammar liquid_ws fuel r_LaxLiquidFile s = Some (Some (rest, pos, ts)) -> rest = [].
+Proof. exact PegProofs.lax_consumes_everything. Qed.
+(* what is not an element is an invalid character: the choice never fails before the end of the text *)
+Theorem element_or_invalid : forall f c s pos,
+  ev liquid_grammar liquid_ws f Compound false (PAlt (PRef r_Element) (PRef r_InvalidLiquid)) (c :: s) pos <> Some None.
+Proof. exact PegProofs.lax_item_never_fails. Qed.
+(* the semantics does not depend on the fuel, for any grammar *)
+Theorem more_fuel_same_answer : forall g ws f f' at_ la e s pos r, f <= f' ->
+  ev g ws f at_ la e s pos = Some r -> ev g ws f' at_ la e s pos = Some r.
+Proof. exact PegProofs.ev_mono_le. Qed.
+(* lookahead changes the pairs only *)
+Theorem lookahead_matches_the_same : forall g ws f at_ e s pos r, ev g ws f at_ true e s pos = Some r ->
+  exists r', ev g ws f at_ false e s pos = Some r' /\ shape r' = shape r.
+Proof. exact PegProofs.ev_la_shape. Qed.
+
+(* non-vacuity: a text with an unterminated output tag and a 20-digit literal is matched entirely,
+   with InvalidLiquid pairs, and ends with the EOI pair the block parsers rely on *)
+Example c01_nonvacuous :
+  match parse liquid_grammar liquid_ws 400 r_LaxLiquidFile
+          [123;123;32;98;97;100;32;123;37;32;105;102;32;57;57;57;57;57;57;57;57;57;57;57;57;57;57;57;57;57;57;57;57;32;37;125]%N with
+  | Some (Some (rest, pos, ts)) =>
+      rest = [] /\ pos = 36 /\ existsb (fun t => Nat.eqb (t_rule t) r_InvalidLiquid) ts = true /\
+      existsb (fun t => Nat.eqb (t_rule t) r_IntegerLiteral) ts = true /\
+      (match rev ts with t :: _ => t_rule t = eoi_id | [] => False end)
+  | _ => False
+  end.
+Proof. vm_compute. repeat split; reflexivity. Qed.
+
+Print Assumptions lax_grammar_never_rejects.
+Print Assumptions lax_grammar_consumes_everything.
+Print Assumptions element_or_invalid.
+Print Assumptions more_fuel_same_answer.
+Print Assumptions lookahead_matches_the_same.
